@@ -55,8 +55,10 @@ def configs(tier, seed):
     out = []
     oth = [(1, 1), (1000000000, 3), (100, 70), (7, 1000000000), (4096, 4096), (129, 2)]
     n = 0
-    for r in res:
+    for ri, r in enumerate(res):
         for t in tcss:
+            if tier == "quick" and t == 1 and ri % 5:
+                continue      # target chunk size 1 is a known finding on every path: 4 representatives in the quick tier
             for ms in mss:
                 for v in range(2 if tier == "quick" else 9):
                     n += 1
